@@ -75,9 +75,15 @@ def run_tests(rec, verif, sh, logs):
     shutil.copytree(os.path.join(verif, rec["crate"]), scratch,
                     ignore=shutil.ignore_patterns("target", ".target"))
     src = os.path.join(scratch, "src", modname + ".rs")
-    body = open(src).read()
     modpath = "::".join(rec["harness"].split("::")[1:-1])
-    inner = "\n".join(rec["tests"])
+    if not os.path.exists(src):
+        # the harness module is declared inline in lib.rs (kani17)
+        src = os.path.join(scratch, "src", "lib.rs")
+        modpath = "::".join(rec["harness"].split("::")[:-1])
+    body = open(src).read()
+    # only the code: Kani's doc-comment header quotes the check message, and a
+    # multi-line `concat!` message leaves an uncommented line behind
+    inner = "\n".join(t[t.index("#[test]"):] if "#[test]" in t else t for t in rec["tests"])
     body += "\n#[cfg(kani)]\nmod playback_generated {\n    use super::%s::*;\n%s\n}\n" % (modpath or "", inner)
     # the generated test refers to the harness by its bare name
     open(src, "w").write(body)
